@@ -54,6 +54,8 @@ def slToSexp (s : Sl) : Sexp := Sexp.ofNats [s.start, s.stop, s.step, s.dtype, s
   C04 catlocate (sizes) n                      `ok (part local)` | `ok none`
   C04 deltasubs ("real"…) (delta …) SUBST INS ENV   substitute() at a Delta node + Delta.eager_subs: `ok declined` | `ok TABLE`
   C04 indepsubs (independent …) SUBST INS ENV      … at an Independent node (Independent.eager_subs)
+  C04 constsubs CONSTS ARGINS (("key" INS)…) ARG SUBST INS ENV   … at a Constant node: `ok (new const inputs) TABLE` (Real = size 0)
+  C04 gdecide ("input"…) (("key" (var "x")|int|real|affine|lzy)…)   the chain of branches Gaussian.eager_subs takes
   C04 mpdecide (("bound" "visible")…) (("key" "x"|none)…)  MarkovProduct/Scatter.eager_subs decision on names
   C04 gsubs head|order INS rank (w) ((row)…) (("k" (vals))…) (xa)   Gaussian real substitution, pairs in the given order
 -/
@@ -131,6 +133,35 @@ def handle (args : List Sexp) : String :=
         | none => Term.independent fn' rv bv dv size
       "ok " ++ toString (tableToSexp (denoteTable t' ins env))
     | _, _, _, _ => "err bad-args"
+  | [Sexp.atom "constsubs", consts, argIns, vins, arg, σ, ins, env] =>
+    -- substitute() at a Constant node: children with σ minus the const inputs, then Constant.eager_subs
+    -- vins: (("key" (("name" size)…))…) = the inputs of the value substituted for each const input
+    match parseIns consts, parseIns argIns,
+          vins.asList?.bind (·.mapM fun x => match x with
+            | Sexp.list [k, v] => do pure ((← k.asStr?), (← parseIns v))
+            | _ => none),
+          parseTerm arg, parseSubst σ, parseIns ins, parseEnv env with
+    | some consts, some argIns, some vins, some arg, some σ, some ins, some env =>
+      let arg' := substitute arg (sremove σ (names consts))
+      let r := constEagerSubs ⟨consts, arg'⟩ argIns (fun k => (vins.find? (fun p => p.1 == k)).map (·.2))
+      match assignments (ins.map fun (n, k) => (n, ⟨DType.bint k, []⟩)) with
+      | none => "err bad-ins"
+      | some asgs =>
+        "ok " ++ toString (Sexp.list (r.consts.map fun p => Sexp.list [Sexp.str p.1, Sexp.ofNat p.2])) ++ " " ++
+          toString (tableToSexp (asgs.map fun a => r.meaning (a ++ env)))
+    | _, _, _, _, _, _, _ => "err bad-args"
+  | [Sexp.atom "gdecide", ins, σ] =>
+    -- σ: (("key" (var "x")|int|real|affine|lzy)…)
+    match ins.asStrs?, σ.asList?.bind (·.mapM fun x => match x with
+            | Sexp.list [k, Sexp.list [Sexp.atom "var", v]] => do pure ((← k.asStr?), GKind.var (← v.asStr?))
+            | Sexp.list [k, Sexp.atom "int"] => do pure ((← k.asStr?), GKind.int)
+            | Sexp.list [k, Sexp.atom "real"] => do pure ((← k.asStr?), GKind.real)
+            | Sexp.list [k, Sexp.atom "affine"] => do pure ((← k.asStr?), GKind.affine)
+            | Sexp.list [k, Sexp.atom "lzy"] => do pure ((← k.asStr?), GKind.lzy)
+            | _ => none) with
+    | some ins, some σ =>
+      "ok " ++ toString (Sexp.list ((gDecide 6 ins σ).map fun st => Sexp.list [Sexp.atom st.1, Sexp.list (st.2.map Sexp.str)]))
+    | _, _ => "err bad-args"
   | [Sexp.atom "mpdecide", sn, σ] =>
     -- σ: (("key" "x") | ("key" none) …): Variable x / any other value
     match sn.asList?.bind (·.mapM fun x => match x with
